@@ -71,16 +71,19 @@ func TestVerifC08Hist(t *testing.T) {
 	c08Quiet()
 	r := ev.Start(t, "C08")
 	defer r.Finish()
-	r.Rule("BFS over event histories from snapshot bases of 0,1,2,3,510,511,1022,1023,2046,2047 chained transactions; events = child of " +
+	r.Rule("BFS over event histories from snapshot bases of 0,1,2,3,510..513,1022..1025,2046..2049 chained transactions; events = child of " +
 		"every transaction in the window (last two base transactions + all added ones), merges of tip pairs, and rejected writes (duplicate, " +
 		"second root, missing prev, wrong payload); states merged by (stored set by structural name, head); reference fold of App. B.2 on " +
 		"the live instance and on a reloaded copy in every state; a case is non-trivial when its last event is a valid addition")
 	r.Assume("bbolt's atomic commit is trusted; clocks above 2051 and more than 7 additions per history are not explored")
 
 	type baseSpec struct{ n, depth int }
-	specs := []baseSpec{{0, 5}, {1, 4}, {2, 4}, {3, 4}, {510, 3}, {511, 3}, {1022, 3}, {1023, 3}, {2046, 2}, {2047, 2}}
+	// chain lengths n give a highest clock n-1: the persisted start states sit two and one below, exactly at and one above
+	// every page boundary / tree re-root size (highest clock 509..512, 1021..1024, 2045..2048), so that a last page with
+	// exactly one transaction is both reached by additions and loaded from disk
+	specs := []baseSpec{{0, 5}, {1, 4}, {2, 4}, {3, 4}, {510, 3}, {511, 3}, {512, 2}, {513, 2}, {1022, 3}, {1023, 3}, {1024, 2}, {1025, 2}, {2046, 2}, {2047, 2}, {2048, 1}, {2049, 1}}
 	if r.Thorough() {
-		specs = []baseSpec{{0, 7}, {1, 6}, {2, 6}, {3, 6}, {510, 5}, {511, 5}, {1022, 5}, {1023, 5}, {2046, 4}, {2047, 4}}
+		specs = []baseSpec{{0, 7}, {1, 6}, {2, 6}, {3, 6}, {510, 5}, {511, 5}, {512, 4}, {513, 4}, {1022, 5}, {1023, 5}, {1024, 4}, {1025, 4}, {2046, 4}, {2047, 4}, {2048, 3}, {2049, 3}}
 	}
 	var rc c08Case
 	replay := r.ReplayCase(&rc)
@@ -148,7 +151,9 @@ func TestVerifC08Hist(t *testing.T) {
 		}
 		units := []unit{{nil, 1}}
 		for _, e := range c08Menu(c08BaseNames(sp.n), sp.n, false) {
-			units = append(units, unit{[]c08Event{e}, sp.depth - 1})
+			if sp.depth > 1 {
+				units = append(units, unit{[]c08Event{e}, sp.depth - 1})
+			}
 		}
 		for ui, u := range units {
 			u := u
@@ -320,7 +325,7 @@ func TestVerifC08Faults(t *testing.T) {
 	c08Quiet()
 	r := ev.Start(t, "C08")
 	defer r.Finish()
-	r.Rule("all histories of fixed length from the event menu (at most one rejected write each) on bases 0,1,2,510,511,1022,1023(,2046,2047); " +
+	r.Rule("all histories of fixed length from the event menu (at most one rejected write each) on bases 0,1,2,510..513,1022..1025(,2046..2049); " +
 		"for every operation of the history every numbered step of its write transactions (begin, each put/delete, commit, each AfterCommit, " +
 		"each OnRollback) x {storage error, process stop}; after the fault: reference fold on the live instance and a reloaded copy (error) or " +
 		"after restart (stop), then retry of the interrupted write and the rest of the history, fold again live and after a restart; " +
@@ -329,9 +334,11 @@ func TestVerifC08Faults(t *testing.T) {
 		"torn writes below bbolt's commit are not modelled")
 
 	type baseSpec struct{ n, length int }
-	specs := []baseSpec{{0, 4}, {1, 3}, {2, 3}, {510, 2}, {511, 2}, {1022, 2}, {1023, 2}}
+	// the faulted write is, among others: the one that fills a page (clock 511/1023), the one that opens a new page
+	// (512/1024, with and without a tree re-root), the second one on a page that held a single transaction (513/1025)
+	specs := []baseSpec{{0, 4}, {1, 3}, {2, 3}, {510, 2}, {511, 2}, {512, 1}, {513, 1}, {1022, 2}, {1023, 2}, {1024, 1}, {1025, 1}}
 	if r.Thorough() {
-		specs = []baseSpec{{0, 5}, {1, 4}, {2, 4}, {510, 3}, {511, 3}, {1022, 3}, {1023, 3}, {2046, 2}, {2047, 2}}
+		specs = []baseSpec{{0, 5}, {1, 4}, {2, 4}, {510, 3}, {511, 3}, {512, 2}, {513, 2}, {1022, 3}, {1023, 3}, {1024, 2}, {1025, 2}, {2046, 2}, {2047, 2}, {2048, 1}, {2049, 1}}
 	}
 	var rc c08Case
 	replay := r.ReplayCase(&rc)
@@ -640,14 +647,16 @@ func TestVerifC08Repair(t *testing.T) {
 	c08Quiet()
 	r := ev.Start(t, "C08")
 	defer r.Finish()
-	r.Rule("bases of 1200 / 2047 chained transactions (3 / 4 pages); for every page x corruption {phantom reference, missing reference, zeroed leaf} " +
-		"x place {memory and disk, memory only, disk only then restart}: checkPage once per page (+1), reference fold (XOR clauses) live and after " +
-		"restart, persisted leaves of the other pages compared byte for byte; plus every error / stop point inside the repair's own write " +
-		"transaction; a case is one (base, page, corruption, place, fault) tuple")
-	r.Assume("the IBLT is not repaired by design and is not corrupted here")
-	bases := []int{1200}
+	r.Rule("chains whose highest clock is one below, exactly at and one above every page boundary (511/512/513, 1023/1024/1025; thorough also 1199 and " +
+		"2047/2048/2049), i.e. DAGs whose last page is full, holds exactly one transaction, or two; for EVERY page including the last x corruption " +
+		"{phantom reference, missing reference, zeroed leaf} x place {memory and disk, memory only, disk only then restart}: the repair loop is driven " +
+		"from its initial position by 2*pages+1 checkPage calls (every page is due at least twice, the wrap-around included), reference fold (XOR " +
+		"clauses) live and after restart, persisted leaves of the other pages compared byte for byte; plus every error / stop point of the write " +
+		"transactions of the first pass over all pages; a case is one (chain, page, corruption, place, fault) tuple")
+	r.Assume("the IBLT is not repaired by design and is not corrupted here; pages beyond the highest clock are not corrupted")
+	bases := []int{512, 513, 514, 1024, 1025, 1026}
 	if r.Thorough() {
-		bases = []int{1200, 2047, 513}
+		bases = []int{512, 513, 514, 1024, 1025, 1026, 1200, 2048, 2049, 2050}
 	}
 	var rc c08Case
 	replay := r.ReplayCase(&rc)
@@ -662,7 +671,7 @@ func TestVerifC08Repair(t *testing.T) {
 		mode fault.Mode
 		at   int
 	}
-	runOne := func(c c08Case, f fcase) (string, []fault.Step) {
+	runOne := func(c c08Case, f fcase) (string, []fault.Step, int) {
 		parts := strings.Split(c.Variant, "/") // corruption/place
 		corruption, place := parts[0], parts[1]
 		in := w.fresh(c.Base)
@@ -701,31 +710,30 @@ func TestVerifC08Repair(t *testing.T) {
 			// on the unchanged tree the injected corruption shows as an XOR mismatch and nothing else; anything else means the
 			// instance was not consistent to begin with, which is what the other parts report: no verdict from this case
 			w.trouble("an injected corruption was not visible as an XOR mismatch before the repair (cases skipped)")
-			return "skipped", nil
+			return "skipped", nil, 0
 		}
 		in.st.xorTreeRepair.circuitState = circuitRed
-		// without a fault the procedure cycles over all pages (and one more: the wrap-around); with a fault only the
-		// pass over the corrupted page is run (the product reads and parses a whole page per pass), the fault
-		// enumeration being over the steps of that pass
-		cycle := func(s *state) {
-			if f.mode == fault.None {
-				for i := 0; i <= pages; i++ {
-					s.xorTreeRepair.checkPage()
+		// the loop is driven from its own initial position, never positioned by the harness: 2*pages+1 calls make every
+		// page due at least twice, the wrap-around after the last page included. firstPass = number of write steps of the
+		// first pages+1 calls (the fault enumeration is over those)
+		firstPass := 0
+		cycle := func(s *state, calls int) {
+			for i := 0; i < calls && !in.kv.Dead(); i++ {
+				s.xorTreeRepair.checkPage()
+				if i == pages {
+					firstPass = in.kv.Steps()
 				}
-				return
 			}
-			s.xorTreeRepair.currentPage = uint32(c.Page)
-			s.xorTreeRepair.checkPage()
 		}
 		in.kv.Arm(fault.Plan{Mode: f.mode, At: f.at})
-		stopped := fault.Run(func() { cycle(in.st) })
+		stopped := fault.Run(func() { cycle(in.st, 2*pages+1) })
 		trace := in.kv.Trace()
 		fired, at := in.kv.Fired()
 		in.kv.Disarm()
 		outcome := "repaired"
 		if f.mode != fault.None {
 			if !fired {
-				return "fault-not-reached", trace
+				return "fault-not-reached", trace, firstPass
 			}
 			outcome = f.mode.String() + "@" + at.Label()
 		}
@@ -733,12 +741,20 @@ func TestVerifC08Repair(t *testing.T) {
 			// stop inside the repair: restart; the node is again in the corrupted-or-repaired state and the repair runs again
 			in = in.reopen()
 			in.st.xorTreeRepair.circuitState = circuitRed
-			cycle(in.st)
-		} else if f.mode == fault.Error {
-			// a failed repair transaction: the procedure keeps cycling while the circuit is red
-			cycle(in.st)
+			cycle(in.st, pages+1)
 		}
-		class := corruption + "|" + place
+		shape := "inner-page"
+		if c.Page == pages-1 {
+			switch c.Base - c.Page*int(PageSize) {
+			case 1:
+				shape = "last-page-with-one-transaction"
+			case int(PageSize):
+				shape = "last-page-full"
+			default:
+				shape = "last-page"
+			}
+		}
+		class := corruption + "|" + place + "|" + shape
 		if f.mode != fault.None {
 			class += "|" + f.mode.String() + "@" + at.Label()
 		}
@@ -776,7 +792,7 @@ func TestVerifC08Repair(t *testing.T) {
 		if len(after) != len(before) {
 			r.Violation("C08|repair|"+class+"|leaf-count", fmt.Sprintf("%d persisted XOR leaves before, %d after the repair", len(before), len(after)), c)
 		}
-		return outcome, trace
+		return outcome, trace, firstPass
 	}
 
 	if replay {
@@ -787,45 +803,58 @@ func TestVerifC08Repair(t *testing.T) {
 		case "stop":
 			mode = fault.Stop
 		}
-		out, _ := runOne(rc, fcase{mode, rc.At})
+		out, _, _ := runOne(rc, fcase{mode, rc.At})
 		r.Eval(ev.Key(rc))
 		r.Outcome(out)
 		return
 	}
-	idx := 0
+	light, heavy := 0, 0
 	var runs int64
 	for _, base := range bases {
 		pages := (base-1)/int(PageSize) + 1
+		r.Bound(fmt.Sprintf("pages_chain_%d", base), pages)
 		for page := 0; page < pages; page++ {
-			for ci, corruption := range []string{"phantom", "missing", "zeroed"} {
-				for pi, place := range []string{"mem+disk", "mem", "disk"} {
-					idx++
-					if !r.Mine(page+ci+pi+base) || r.Expired() { // the expensive place (mem+disk, with fault enumeration) is spread over the workers
+			for _, corruption := range []string{"phantom", "missing", "zeroed"} {
+				for _, place := range []string{"mem+disk", "mem", "disk"} {
+					// cases with fault enumeration are dealt separately from the others so that every worker gets its share of both
+					withFaults := r.Thorough() || (place == "mem+disk" && corruption == "phantom")
+					var mine bool
+					if withFaults {
+						heavy++
+						mine = r.Mine(heavy)
+					} else {
+						light++
+						mine = r.Mine(light)
+					}
+					if !mine || r.Expired() {
 						continue
 					}
 					c := c08Case{Part: "repair", Base: base, Page: page, Variant: corruption + "/" + place}
-					out, trace := runOne(c, fcase{fault.None, 0})
+					out, trace, firstPass := runOne(c, fcase{fault.None, 0})
 					runs++
 					r.Eval(ev.Key(c))
 					r.Outcome(out)
-					if page == 1 && corruption == "phantom" && place == "mem+disk" {
+					if page == pages-1 && corruption == "phantom" && place == "mem+disk" && base%int(PageSize) == 1 {
 						labels := []string{}
 						for _, s := range trace {
 							labels = append(labels, s.Label())
 						}
-						r.Sample(map[string]any{"case": c, "write_steps_of_the_repair": labels})
+						r.Sample(map[string]any{"case": c, "meaning": "highest clock exactly on a page boundary: the last page holds one transaction", "write_steps_of_the_repair": labels})
 					}
-					if place != "mem+disk" && !r.Thorough() {
+					if !withFaults {
 						continue
 					}
 					for _, st := range trace {
+						if st.N > firstPass || r.Expired() {
+							break
+						}
 						for _, mode := range []fault.Mode{fault.Error, fault.Stop} {
 							if !fault.Applicable(st.Kind, mode) {
 								continue
 							}
 							fc := c
 							fc.Mode, fc.At, fc.Label = mode.String(), st.N, st.Label()
-							out, _ := runOne(fc, fcase{mode, st.N})
+							out, _, _ := runOne(fc, fcase{mode, st.N})
 							runs++
 							r.Eval(ev.Key(fc))
 							r.Outcome(out)
